@@ -617,6 +617,18 @@ impl<'a> Gen<'a> {
     }
 
     fn for_stmt(&mut self, depth: u32) -> Vec<J> {
+        // names bound by the loop (target, body locals) are mostly kept out of scope afterwards:
+        // the loop may run zero times
+        let saved = self.scopes.last().unwrap().clone();
+        let keep = self.rng.chance(1, 8);
+        let r = self.for_stmt_inner(depth);
+        if !keep {
+            *self.scopes.last_mut().unwrap() = saved;
+        }
+        r
+    }
+
+    fn for_stmt_inner(&mut self, depth: u32) -> Vec<J> {
         let x = self.fresh("i");
         let (it, ety, tg): (J, Ty, J) = match self.rng.below(6) {
             0 => (self.expr(&Ty::ListStr, 2), Ty::Str, json!({"k": "var", "n": x})),
@@ -858,5 +870,94 @@ impl<'a> Gen<'a> {
         } else {
             J::Array(self.block(nstmts, 2))
         }
+    }
+
+    /// Statements that build cyclic / aliased / shared structure and garbage (for C03/C04).
+    fn gc_stmt(&mut self) -> Vec<J> {
+        let ls = self.vars_of(|t| *t == Ty::ListInt);
+        match self.rng.below(9) {
+            0 => {
+                // a list containing itself, and an alias of it
+                let n = self.fresh("cy");
+                let a = self.fresh("cy");
+                vec![assign(&n, json!({"k": "list", "items": [int(self.small_int())]})),
+                     json!({"k": "expr", "e": mcall(var(&n), "append", vec![var(&n)])}),
+                     assign(&a, var(&n)),
+                     emit(var(&a))]
+            }
+            1 => {
+                // dict of lists sharing one list twice
+                let sh = self.fresh("sh");
+                let d = self.fresh("sh");
+                vec![assign(&sh, self.expr(&Ty::ListInt, 2)),
+                     assign(&d, json!({"k": "dict", "keys": [strlit("p"), strlit("q")], "vals": [var(&sh), var(&sh)]})),
+                     json!({"k": "expr", "e": mcall(json!({"k": "index", "e": var(&d), "i": strlit("p")}), "append", vec![int(42)])}),
+                     emit(var(&d))]
+            }
+            2 => {
+                // garbage: a big temporary
+                let t = self.fresh("tmp");
+                let x = self.fresh("c");
+                vec![assign(&t, callf("len", vec![json!({"k": "compr", "elt": json!({"k": "list", "items": [var(&x), var(&x)]}), "clauses": [
+                        {"k": "for", "tg": {"k": "var", "n": x}, "it": callf("range", vec![int(self.pick(&[50i64, 200, 400]))])}]})])),
+                     emit(var(&t))]
+            }
+            3 => {
+                // closure capturing a list; called later
+                let cap = self.fresh("cap");
+                let f = self.fresh("f");
+                let s = vec![assign(&cap, self.expr(&Ty::ListInt, 2)),
+                     json!({"k": "def", "name": f, "params": [], "body": [
+                        {"k": "expr", "e": mcall(var(&cap), "append", vec![callf("len", vec![var(&cap)])])},
+                        {"k": "return", "e": var(&cap)}]}),
+                     emit(call(var(&f), vec![]))];
+                self.declare(&cap, Ty::ListInt);
+                self.declare(&f, Ty::Fn(0));
+                s
+            }
+            4 => {
+                // host-provided value: read, mutate through the alias the host also stored in extra_value
+                vec![json!({"k": "expr", "e": mcall(var("hostv"), "append", vec![self.expr(&Ty::Int, 2)])}),
+                     emit(var("hostv"))]
+            }
+            5 => {
+                // top-level if (safepoints inside)
+                let c = self.expr(&Ty::Bool, 2);
+                let a = self.emit_stmt(2);
+                let b = self.mutate_stmt(2);
+                vec![json!({"k": "if", "c": c, "then": [a[0].clone(), b[0].clone()], "else": [a[0].clone()]})]
+            }
+            6 if !ls.is_empty() => {
+                // nested structure holding existing lists
+                let l = self.pick(&ls);
+                let n = self.fresh("ns");
+                vec![assign(&n, json!({"k": "tuple", "items": [var(&l.name), json!({"k": "list", "items": [var(&l.name), strlit("s")]})]})),
+                     emit(var(&n))]
+            }
+            7 => {
+                // call an earlier zero-arg closure again
+                let fs = self.vars_of(|t| *t == Ty::Fn(0));
+                if fs.is_empty() { self.emit_stmt(2) } else { let f = self.pick(&fs); vec![emit(call(var(&f.name), vec![]))] }
+            }
+            _ => self.stmt(2),
+        }
+    }
+
+    /// A module for GC/freeze checks: many top-level statements, never wrapped in a def
+    /// (safepoints exist only at module level). `hostv` is bound by the embedder.
+    pub fn module_gc(&mut self, nstmts: usize) -> J {
+        self.fail_rate = 3;
+        self.declare("hostv", Ty::ListAny);
+        let mut out = Vec::new();
+        for _ in 0..nstmts {
+            let s = if self.rng.chance(1, 2) { self.gc_stmt() } else { self.stmt(2) };
+            out.extend(s);
+        }
+        // final sweep: emit every live variable
+        let vs = self.vars_of(|t| !matches!(t, Ty::Fn(_)));
+        for v in vs {
+            out.push(emit(var(&v.name)));
+        }
+        J::Array(out)
     }
 }
